@@ -252,6 +252,8 @@ class Real:
                     lay = "ok"
                 elif [c[:5] for c in cols] == [c[:5] for c in MODELS_COLS]:
                     lay = "nopk"
+                elif cols[:4] == MODELS_COLS and len(cols) == 5 and cols[4][1:4] == ("extra", "TEXT", 1) and cols[4][4] is None:
+                    lay = "extracol"     # lookup / update / delete work, the INSERT of parse() does not
                 else:
                     lay = "alien"
                 rows = []
@@ -354,6 +356,14 @@ class Real:
                         st.append("INSERT INTO models_new SELECT txt_hash, pymoca_version, data, last_hit FROM models ORDER BY rowid")
                     st += ["DROP TABLE IF EXISTS models", "ALTER TABLE models_new RENAME TO models"]
                     self.sql(st)
+                elif how == "extracol":
+                    keep = snap["models"] and snap["models"]["layout"] != "alien"
+                    st = ["CREATE TABLE models_new (txt_hash TEXT, pymoca_version TEXT, data BLOB, last_hit TIMESTAMP INTEGER, "
+                          "extra TEXT NOT NULL, PRIMARY KEY (txt_hash, pymoca_version))"]
+                    if keep:
+                        st.append("INSERT INTO models_new SELECT txt_hash, pymoca_version, data, last_hit, 'x' FROM models ORDER BY rowid")
+                    st += ["DROP TABLE IF EXISTS models", "ALTER TABLE models_new RENAME TO models"]
+                    self.sql(st)
             else:
                 if how == "drop":
                     self.sql(["DROP TABLE IF EXISTS metadata"])
@@ -435,21 +445,26 @@ def model_op(op):
 
 
 def damaging(op):
-    return op[0] == "cfile" or (op[0] == "clayout" and op[1] == "models" and op[2] in ("drop", "alien"))
+    return op[0] == "cfile" or (op[0] == "clayout" and op[1] == "models" and op[2] in ("drop", "alien", "extracol"))
 
 
 class Tracker:
-    """What the generator / the known-finding predicate need to know about a history prefix, computed from the
-    operations alone: is the database in `initialized_dbs`, and can its `models` table be queried."""
+    """What the generator / the known-finding predicates need to know about a history prefix, computed from the
+    operations alone: is the database in `initialized_dbs`, and what works on its `models` table."""
 
-    def __init__(self, recover=True):
+    def __init__(self, recover=True, tolerant=False):
         self.recover = recover     # parse() re-validates a database it can no longer query (fix 821b239)
+        self.tolerant = tolerant   # a failing cache write does not fail parse() (proposed fix C01-2)
         self.init = False
         self.dirty = False
-        self.file = "noquery"      # "garbage" | "noquery" (database without a usable models table) | "query"
+        # "garbage" | "noquery" (no usable models table) | "noinsert" (lookup works, insert does not) | "query"
+        self.file = "noquery"
 
     def unsynced(self):
         return self.init and self.file != "query"
+
+    def write_damaged(self):
+        return self.init and self.file == "noinsert"
 
     def feed(self, op):
         k = op[0]
@@ -458,12 +473,16 @@ class Tracker:
         elif k == "setver":
             self.dirty = bool(op[2])
         elif k == "parse":
-            if not op[4] and not self.dirty and (self.recover or not self.unsynced()):
+            if op[4] or self.dirty:
+                return
+            if not self.init or (self.recover and self.file in ("garbage", "noquery")):
                 self.init, self.file = True, "query"
+            elif self.file == "noinsert" and self.tolerant:
+                self.init = False      # (on a miss; a hit leaves it — irrelevant for what this is used for)
         elif k == "cfile":
             self.file = "garbage" if op[1] in ("text", "header", "freelist") else "noquery"
         elif k == "clayout" and op[1] == "models" and self.file != "garbage":
-            self.file = "query" if op[2] == "nopk" else "noquery"
+            self.file = {"nopk": "query", "extracol": "noinsert"}.get(op[2], "noquery")
 
 
 def unsynced_at(ops, upto, recover=False):
@@ -473,6 +492,15 @@ def unsynced_at(ops, upto, recover=False):
     for op in ops[:upto - 1]:
         t.feed(op)
     return t.unsynced()
+
+
+def write_damaged_at(ops, upto):
+    """Was the `models` table replaced by one that rejects the insert while the process held the database
+    initialised, and not re-validated since — at the time operation number `upto` (1-based) ran?"""
+    t = Tracker(recover=True)
+    for op in ops[:upto - 1]:
+        t.feed(op)
+    return t.write_damaged()
 
 
 # ---- one history -----------------------------------------------------------------------------
@@ -527,7 +555,7 @@ def check_history(ctx, pool, ops, drv, cfg, case_extra=None):
     finally:
         real.close()
     if drv is not None:
-        ans = drv.ask({"op": "cache.run", "caught": cfg["caught"], "recover": cfg["recover"], "pf": pool.pf_table(), "t0": T0,
+        ans = drv.ask({"op": "cache.run", "caught": cfg["caught"], "recover": cfg["recover"], "writeTolerant": cfg["writeTolerant"], "pf": pool.pf_table(), "t0": T0,
                        "ops": [model_op(o) for o in ops]})
         if not ans.get("ok"):
             raise HarnessError("model driver rejected the history: %s" % ans)
@@ -573,7 +601,7 @@ TICKS = [1, 1_000_000, 3_600_000_000, 23 * 3_600_000_000, 25 * 3_600_000_000, 3 
 DAYS = [30, 30, 30, 0, 1, 7, 365]
 
 
-def gen_history(rng, pool, maxlen, guarded):
+def gen_history(rng, pool, maxlen, guarded, f3=False):
     n = rng.randint(3, maxlen)
     ops = []
     ntext = len(pool.texts)
@@ -599,14 +627,15 @@ def gen_history(rng, pool, maxlen, guarded):
                         rng.choice(list(BLOBS))])
         elif r < 0.91:
             tbl = rng.choice(["models", "meta"])
-            how = rng.choice(["drop", "alien", "nopk"] if tbl == "models" else ["drop", "alien", "delcreated", "delprune"])
+            how = rng.choice(["drop", "alien", "nopk", "extracol"] if tbl == "models" else ["drop", "alien", "delcreated", "delprune"])
             ops.append(["clayout", tbl, how])
         elif r < 0.95:
             ops.append(["cfile", rng.choice(["delete", "empty", "text", "header", "freelist"])])
         else:
             ops.append(["foreign", rng.choice(hot), rng.choice([100, 101]), rng.choice([0, 2, 40])])
         tr.feed(ops[-1])
-        if (guarded and tr.unsynced()) or (ops[-1][:2] == ["cfile", "freelist"] and tr.init):
+        if (guarded and tr.unsynced()) or (ops[-1][:2] == ["cfile", "freelist"] and tr.init) or (not f3 and tr.write_damaged()):
+            # (write damage while initialised = open finding C01-F3: only in its own stream)
             # (the model treats a file that fails integrity_check as unreadable; for `freelist` that is exact only
             # when the process does not hold the database initialised)
             ops.append(["reload"])
@@ -624,11 +653,11 @@ def source_cfg(ctx=None):
     parse(), and whether parse() has the retry handler of fix C01-1."""
     try:
         ex = a01.extract()
-        return {"caught": ex["caught_unpickle"], "recover": ex["recover"]}
+        return {"caught": ex["caught_unpickle"], "recover": ex["recover"], "writeTolerant": ex["write_tolerant"]}
     except Exception as e:  # translator does not recognise the source any more
         if ctx is not None:
             ctx.tie_broken("translator:parse-shape", repr(e))
-        return {"caught": ["Exception"], "recover": True}
+        return {"caught": ["Exception"], "recover": True, "writeTolerant": False}
 
 
 def translate(ctx):
@@ -668,10 +697,11 @@ def _run(ctx):
         # guarded stream: a module reload follows every damage done while the process holds the database
         # initialised; the other stream damages it at any time (finding C01-F2, fixed by 821b239)
         guarded = ctx.rng.random() < 0.6
-        ops = gen_history(ctx.rng, pool, maxlen, guarded)
+        f3 = ctx.rng.random() < 0.12       # stream of the open finding C01-F3 (insert-rejecting table while initialised)
+        ops = gen_history(ctx.rng, pool, maxlen, guarded and not f3, f3)
         hit = check_history(ctx, pool, ops, drv, cfg)
         ctx.case({"ops": ops}, nontrivial=bool(hit) and faulty(ops))
-        ctx.count("stream-guarded" if guarded else "stream-unguarded")
+        ctx.count("stream-f3" if f3 else "stream-guarded" if guarded else "stream-unguarded")
         ctx.count("len-%02d" % (10 * (len(ops) // 10)))
         for o in ops:
             ctx.count("op-" + o[0] + ("-" + str(o[-1]) if o[0] in ("cfile", "clayout") else ""))
@@ -684,7 +714,7 @@ def search(ctx):
         pool = Pool(ctx.rng, 10, 4)
         n = 0
         while ctx.time_left() > 0 and not ctx.violations and n < 4000:
-            ops = gen_history(ctx.rng, pool, 60, ctx.rng.random() < 0.9)
+            ops = gen_history(ctx.rng, pool, 60, ctx.rng.random() < 0.5)
             check_history(ctx, pool, ops, None, None)
             ctx.count("search-history")
             n += 1
@@ -702,13 +732,15 @@ def replay(ctx, payload):
 MANIFEST = dict(
     level_text="Lean 4 theorems about an executable state-machine model of parser.parse / _check_database_structure "
                "(abstract database file, clock, version, per-process initialized_dbs): the row invariant is preserved by "
-               "every operation including all corruptions, every parse of every finite history returns the uncached "
-               "result (none iff syntax error) and never stores None; tied to the real code by a per-run differential "
-               "correspondence on real SQLite files (outcome + abstract file snapshot after every operation) and a "
-               "direct fresh-parse oracle.",
+               "every operation including all corruptions; every parse of every finite history returns the uncached result "
+               "(none iff syntax error, no exception) and never stores None; complete statement proved for code with the "
+               "recovery handler and a tolerated cache write, instantiated for the current sources through translator-read "
+               "flags; tied to the real code by a per-run differential correspondence on real SQLite files (outcome + "
+               "abstract file snapshot after every operation) and a direct fresh-parse oracle.",
     level_note="Trusted: Lean kernel + standard axioms; the harness; SHA-256 injective on the pool; pickle round trip. "
-               "Open finding C01-F2 (file damaged after the process initialised it) is excluded by hypothesis and has a "
-               "proved counterexample.",
-    technique="Lean 4 proof (invariant by induction over operation histories) + model/implementation correspondence",
+               "Open finding C01-F3 (models table replaced after initialisation by one that rejects the insert) is excluded by "
+               "hypothesis in current_code_transparent_partial and has a proved counterexample (write_damage_raises); "
+               "C01-F2 was found the same way and is fixed (821b239).",
+    technique="Lean 4 proof (invariant by induction over operation histories) + source translator + model/implementation correspondence",
 )
 READY = True
